@@ -100,6 +100,11 @@ func c10Stream(r *fw.Rand, mtu int) (calls []c10Call, expect [][]byte, pairs map
 				all = append(all, gen.H264Unit(r, t, sz))
 				kinds = append(kinds, 'u')
 				needSlice = false
+				if sz < 70000 && r.Chance(1, 12) {
+					// the same unit again (redundant slices, repeated SEI): byte-identical neighbours are two units
+					all = append(all, append([]byte(nil), all[len(all)-1]...))
+					kinds = append(kinds, 'u')
+				}
 			}
 		}
 		total = len(all)
